@@ -64,10 +64,10 @@ TEXTS = {
         "technique": "Lean 4 theorems about an executable model of the element tree / path index / reverse reference map and its editing "
                      "operations; differential run of the model against the library on operation histories with full state dumps; direct "
                      "property oracle on the library",
-        "level_text": 'Proved for all index contents and byte-string paths: finite-map laws of the path index (lookup after insert/remove, other keys untouched) and exactness of the re-keying test on path boundaries (/pkg1 vs /pkg10). The history-wide invariant `index = identifiable elements of the tree` is checked after every request by the dump comparison and by the oracle on the real library.',
-        "level_note": "Trusted: Lean kernel; axioms propext, Classical.choice, Quot.sound; the hand model is tied to the Rust code by the "
-                      "correspondence run only (244 of 300 quick histories are compared to the end, the others up to the first file-set "
-                      "operation / move between models). " + 'Partial: the invariant over all histories is not yet a theorem. Known findings c04:* are replayed on every run.',
+        "level_text": 'Proved, as an invariant by induction over operations with no bound on the history (C04_index_exact_reachable): in every state reachable by any history of the 17 core operations of the step function the driver runs (new model, create_file, create / create_named (with position), remove, set_character_data incl. renaming through the SHORT-NAME text, remove_character_data, the attribute calls, comment, text items, add_to_file, remove_from_file, remove_file, set_version), in every model, a lookup answers element i for path q exactly when navigation finds i, i has an item name and Element::path computes q; paths are pairwise different; ids are unique. Two explicit guards (no element CALLED SHORT-NAME created through create_sub_element; file versions within vOk) exclude exactly the two points where the statement is false of model and library; each has a Lean negation witness and a replayed known finding. The facts needed from the specification are checked on the regenerated tables by kernel evaluation (all versions except 4.0.1). Also proved: fix_identifiables as a whole is the key rewriting (/pkg1 vs /pkg10), remove_internal removes exactly the entries of the subtree, finite-map laws.',
+        "level_note": "Trusted: Lean kernel; axioms propext, Classical.choice, Quot.sound; the hand model (the step function applyOp) is tied to the Rust code by the "
+                      "correspondence run only (the driver answers the requests with applyOp; every dump holds the whole index). "
+                      + 'Partial: set_item_name, move, copy, sort, set_reference_target and loading are outside the proved alphabet (compared with the library after every request + direct oracle). Hypothesis IdxHyp.noSlash (an accepted SHORT-NAME value contains no "/") is a statement about validate_regex_8, which C19 ties to its regex. Known findings c04:* (four) are replayed on every run.',
     },
     "C05": {
         "design_ref": "DESIGN.md §8 C05, §4.2",
@@ -94,10 +94,10 @@ TEXTS = {
         "technique": "Lean 4 theorems about an executable model of the element tree / path index / reverse reference map and its editing "
                      "operations; differential run of the model against the library on operation histories with full state dumps; direct "
                      "property oracle on the library",
-        "level_text": 'Proved for all worlds and arguments: an error answer of create, named create, remove, rename, set/remove character data, set attribute (both forms), insert/remove text item, deep copy, add_to_file, remove_from_file, set_version and a rejected first load returns the identical world. set_reference_target and move_element_here mutate before their last fallible step in the code and in the model (no theorem; searched by the oracle). Loads: merge scenario on the real library.',
+        "level_text": 'Proved for all worlds and arguments: the whole step function (C11_every_core_operation): whichever of the 17 core operations the driver is asked to perform, a refusal returns the identical world and is printed as err; individually, an error answer of create, named create, remove, rename, set/remove character data, set attribute (both forms), insert/remove text item, deep copy, add_to_file, remove_from_file, set_version and a rejected first load returns the identical world. set_reference_target and move_element_here mutate before their last fallible step in the code and in the model (no theorem; searched by the oracle). Loads: merge scenario on the real library.',
         "level_note": "Trusted: Lean kernel; axioms propext, Classical.choice, Quot.sound; the hand model is tied to the Rust code by the "
                       "correspondence run only (244 of 300 quick histories are compared to the end, the others up to the first file-set "
-                      "operation / move between models). " + 'Partial: frame theorems cover 11 operations; the two late-failure sites are documented, not proved unreachable.',
+                      "operation / move between models). " + 'Partial: the frame theorems cover the 17 operations of the step function plus rename and deep copy; move, sort, merging loads and the two late-failure sites (set_reference_target, move_element_here) are documented, not proved.',
     },
     "C01": {
         "design_ref": 'DESIGN.md §8 C01',
